@@ -170,6 +170,23 @@ def partitions(tier, seed):
         parts.append(_value_part(prop, wtype, 1 if q else 3, 200 if q else 480))
         if not q or prop in ('headers', 'priority', 'timestamp', 'delivery_mode'):
             parts.append(_value_part(prop, wtype, 1 if q else 2, 200 if q else 480, neighbours=True))
+    parts.append(Part(name='headers_decimal_and_long_key', params=[('ch', 'int'), ('size', 'int'), ('n', 'int')],
+                      pre=['0 <= ch <= 65535', '0 <= size < 2**64', '-2**31 <= n < 2**31'],
+                      body='def body(ch, size, n):\n'
+                           '    ok = True\n'
+                           '    for lit in ("1.10", "250.00", "0.00", "-7.50", "3.14159"):\n'
+                           '        want = {k: None for k in NAMES}\n'
+                           '        want["headers"] = hx.table([("d", decimal.Decimal(lit)), ("n", n)])\n'
+                           '        ok = ok and roundtrip(ch, size, want)\n'
+                           '    for key in ("\\u00e9" * 65, "\\u20ac" * 85, "a" * 128):\n'
+                           '        want = {k: None for k in NAMES}\n'
+                           '        want["headers"] = hx.table([(key, n), ("z" + key[1:], True)])\n'
+                           '        ok = ok and roundtrip(ch, size, want)\n'
+                           '    return ok\n',
+                      prelude=PRE, timeout=200, family='property_value',
+                      bound='headers with Decimals that have trailing zeros (re-encoding must reproduce the '
+                            'bytes) and with field names of <= 128 characters but up to 255 UTF-8 bytes',
+                      rep={'ch': 1, 'size': 3, 'n': 7}))
     parts.append(Part(name='empty_and_falsy', params=[('ch', 'int'), ('size', 'int')],
                       pre=['0 <= ch <= 65535', '0 <= size < 2**64'],
                       body='def body(ch, size):\n'
